@@ -17,7 +17,7 @@ func update(tag int32) []byte { return (&tlw.W{}).U32(rpcsrv.ResID).I32(tag).B }
 func srvAck() []byte          { return (&tlw.W{}).U32(0x62d6b459).VecI64([]int64{1}).B }
 
 func scenarios() []*sess.Scenario {
-	all := rpcsrv.Options{Reorder: true, Container: true, Gzip: false}
+	all := rpcsrv.Options{Reorder: true, Container: true, Gzip: false, IDAtGeneration: true}
 	obj := func(t int32) sess.Call { return sess.Call{Tag: t, Kind: rpcsrv.KObj} }
 	return []*sess.Scenario{
 		{Name: "S1-2callers", Salt: 5, Opt: all, Callers: [][]sess.Call{{obj(1)}, {obj(2)}}},
